@@ -26,6 +26,9 @@ var (
 	// ErrCrc is returned when crc is error
 	ErrCrc = errors.New(" crc error")
 
+	// ErrRecordMissing is returned when an index points at an offset that holds no record.
+	ErrRecordMissing = errors.New("no record at the indexed offset")
+
 	// ErrCapacity is returned when capacity is error.
 	ErrCapacity = errors.New("capacity error")
 )
@@ -135,6 +138,20 @@ func (df *DataFile) ReadAt(off int) (e *Entry, err error) {
 
 // WriteAt copies data to mapped region from the b slice starting at
 // given off and returns number of bytes copied to the mapped region.
+// ReadRecordAt returns the entry that an index entry (a stored offset) points
+// to. ReadAt reports an all-zero header as (nil, nil) so that a scan can find
+// the end of the data; an index, however, must never point at an empty slot,
+// so here that is an error (the file was truncated or damaged) rather than a
+// nil entry for the caller to trip over.
+func (df *DataFile) ReadRecordAt(off int) (e *Entry, err error) {
+	e, err = df.ReadAt(off)
+	if err == nil && e == nil {
+		return nil, ErrRecordMissing
+	}
+
+	return e, err
+}
+
 func (df *DataFile) WriteAt(b []byte, off int64) (n int, err error) {
 	return df.rwManager.WriteAt(b, off)
 }
